@@ -311,7 +311,9 @@ def check(prop, tier):
                     violations.append((dst, msg))
                 elif os.path.exists(curfile) and re.search(r"DATA RACE|^fatal error:|^panic:|\[signal ", text, re.M):
                     ff = json.load(open(curfile))
-                    ff["failure"] = "process died: " + tail(logpath, 12)
+                    m = re.search(r"(WARNING: DATA RACE|^fatal error:|^panic:)", text, re.M)
+                    snippet = "\n".join(text[m.start():].splitlines()[:14]) if m else tail(logpath, 12)
+                    ff["failure"] = "process died: " + snippet
                     json.dump(ff, open(curfile, "w"), indent=1)
                     dst = save_replay(prop, curfile)
                     violations.append((dst, ff["failure"]))
